@@ -263,6 +263,17 @@ pub fn json_value() -> impl Strategy<Value = Value> {
             Just(serde_json::json!("\"integrity\":null")),
             Just(serde_json::json!(["\n", "\t", {"raw_metadata": null}])),
         ],
+        // strings whose TEXT is itself JSON (they stay strings)
+        1 => prop_oneof![
+            Just(serde_json::json!("{\"etag\":\"abc\"}")),
+            Just(serde_json::json!("[1,2,3]")),
+            Just(serde_json::json!("null")),
+            Just(serde_json::json!("true")),
+            Just(serde_json::json!("12345")),
+            Just(serde_json::json!("\"quoted\"")),
+            Just(serde_json::json!("{}")),
+            Just(serde_json::json!(" {\"a\":1} ")),
+        ],
     ];
     leaf.prop_recursive(4, 24, 5, |inner| {
         prop_oneof![
